@@ -426,6 +426,24 @@ def rule_v1(chk: Check, ix: Index):
             else:
                 chk.fail("V1-verbose-erasure", key, f.where, "differs beyond the V2 lemma")
             continue
+        # the plain memo wrapper in a spelling the residual comparison cannot line up (one `.get()` lookup shared by both paths):
+        # decided by evaluating it from source, tracing on and off, for success / failure x arguments — result, position, cache
+        # entry, second call from the cache, trace depth back to 0
+        if f.node.name == "memoize_wrapper":
+            from .c17 import EvalError, eval_memoize
+            try:
+                diffs = []
+                for succ in (True, False):
+                    for args in ((), ("NUMBER",), ("a", "b")):
+                        a0 = eval_memoize(f.node, False, succ, args)
+                        a1 = eval_memoize(f.node, True, succ, args)
+                        if a0 != a1 or a0[3] != (0, True, True):
+                            diffs.append((succ, args, a0[:4], a1[:4]))
+                if not diffs:
+                    chk.ok("V1-verbose-erasure", key, f.where, "residuals differ in shape; equal by evaluation over outcome x arguments")
+                    continue
+            except EvalError:
+                pass
         # report the first differing line
         a, b = dump(r0).splitlines(), dump(r1).splitlines()
         diff = next(((x, y) for x, y in zip(a + [""] * len(b), b + [""] * len(a)) if x != y), ("", ""))
